@@ -195,7 +195,9 @@ def catalogue(rng, tier, dims=("homogeneous", "spatial_1D", "spatial_2D"), confs
             over["VISF"] = {"t_vac_start": rng.choice([0.15, 0.2, 0.3]), "t_vac_duration": rng.choice([0.1, 0.3]), "kappa": rng.choice([0.01, 0.05])}
         if conf == "VISF" and early_vacuum:
             # strong evaporation while the bottom of the vial is still warm: the top is the coldest / most supercooled region
+            # (slow ramp with a hold just below 0 C, weak shelf contact, tall vial)
             over["VISF"] = {"t_vac_start": 0.1, "t_vac_duration": 0.5, "kappa": 0.05}
+            prog.update(start=10, rate=1.0 / 60, holds=[{"duration": 600, "temp": -5}]); K = 150; h = max(h, 0.06)
         if conf == "VISF" and late_vacuum:
             # the vacuum window opens only after nucleation: evaporation acts during the solidification stage
             over["VISF"] = {"t_vac_start": 0.75, "t_vac_duration": rng.choice([0.1, 0.2]), "kappa": 0.05}
@@ -216,6 +218,9 @@ def catalogue(rng, tier, dims=("homogeneous", "spatial_1D", "spatial_2D"), confs
             prog.update(start=rng.choice([10, 15]), rate=rng.choice([1.0, 2.0]) / 60, holds=[]); K = 400; h = 0.06
         if isinstance(cn, (int, float)) and not isinstance(cn, bool):
             cnT = cn                     # an explicit trigger temperature (0 included)
+            if dim == "homogeneous" and cn > -2:
+                # hardly any supercooling at the trigger: freezing takes long -- strong shelf contact and a long process so that the run completes
+                K = 100; prog["t_tot"] = 5 * 3600.0; tt = prog["t_tot"]
         else:
             cnT = rng.choice([-4, -6, -8]) if cn else None
         S = make(dim=dim, conf=conf, height=h, diameter=d, K=K, prog=prog, cnTemp=cnT, extra=over)
